@@ -36,8 +36,10 @@ fn main() {
     let n = params.share(if th { 4_000_000 } else { 60_000 });
     Drive { params: &params, stats: &mut stats, known: &known }.run("c06.hooks", 6, strategy(), n, eval);
     Drive { params: &params, stats: &mut stats, known: &known }.run_words("c06.hooks", "ebpf", |w| Some(case_from_words(w)), eval);
+    let n = params.share(if th { 60_000 } else { 1_600 });
+    Drive { params: &params, stats: &mut stats, known: &known }.run("c06.hooks", 62, inflight_strategy(), n, eval);
     let n = params.share(if th { 2_000_000 } else { 40_000 });
     Drive { params: &params, stats: &mut stats, known: &known }.run("c06.ip", 61, any::<u32>().prop_map(|ip| IpCase { ip }), n, eval_ip);
-    let assumptions = ["user-space model of the documented helper/map semantics (linux/bpf.h): the BPF verifier, attachment and the kernel's real LRU approximation are outside it", "at most one connect in flight per thread; fewer connections in flight than the audit map's capacity (200)"];
+    let assumptions = ["user-space model of the documented helper/map semantics (linux/bpf.h): the BPF verifier, attachment and the kernel's real LRU approximation are outside it", "at most one connect in flight per thread; at most as many connections in flight as the maps are declared to hold (200)"];
     stats.write_worker_files(&params.out, &params.prop, RULE, &assumptions, t0.elapsed().as_secs_f64());
 }
